@@ -154,12 +154,14 @@ def tableClient (guardEq : Bool) : Client Table TInstr TLoc :=
   { expand := expand guardEq, pick := fun _ _ => some 0, commit := fun l => { l with held := l.cur } }
 
 /-- operations of a process (hook-point programs) -/
-def progGetHead : List (Option TInstr) := [some (.read false)]
-def progGetHeadLocked : List (Option TInstr) := [none, some (.read true)]
-def progSave (es : Entries) : List (Option TInstr) := [some (.save false es)]
+abbrev TProg := List (Instr Table TInstr)
+def progGetHead : TProg := [.client (.read false)]
+def progGetHeadLocked : TProg := [.lock, .client (.read true)]
+def progSave (es : Entries) : TProg := [.client (.save false es)]
 /-- the Git backend's pattern: `get_head_locked`, mutate, `save_table` while holding the lock -/
-def progLockedSave (es : Entries) : List (Option TInstr) := [none, some (.read true), some (.save true es)]
+def progLockedSave (es : Entries) : TProg := [.lock, .client (.read true), .client (.save true es)]
 
 abbrev TState := State Table TInstr TLoc
+abbrev TEvent := Event Table TInstr
 
 end JjModel.Table
